@@ -281,6 +281,32 @@ func genScene(rng *rand.Rand, nOuter, maxHoles, maxVerts int) []gtPoly {
 				sc[i].holes[j] = fix(sc[i].holes[j])
 			}
 		}
+		// sometimes move the scene so that it touches an axis (a vertex with lon = 0 or lat = 0,
+		// never both): "no location" on an annotated way node is lon == 0 AND lat == 0 only
+		if t := rng.Intn(4); t < 2 {
+			var dx, dy int64
+			x0, y0 := int64(coordLim), int64(coordLim)
+			for _, p := range sc {
+				bx, by, _, _ := bbox(p.outer)
+				x0, y0 = min64(x0, bx), min64(y0, by)
+			}
+			if t == 0 {
+				dx = -x0
+			} else {
+				dy = -y0
+			}
+			mv := func(r []pt) {
+				for i := range r {
+					r[i] = pt{r[i].x + dx, r[i].y + dy}
+				}
+			}
+			for i := range sc {
+				mv(sc[i].outer)
+				for j := range sc[i].holes {
+					mv(sc[i].holes[j])
+				}
+			}
+		}
 		assertScene(sc)
 		return sc
 	}
@@ -1076,7 +1102,18 @@ func main() {
 		}
 		g := genScene(rng, nOuter, 2, 5+rng.Intn(6))
 		base := i
-		in := cutScene(rng, g, func(ring, n int) int { return 1 + (base+ring+rng.Intn(2))%6 })
+		in := cutScene(rng, g, func(ring, n int) int {
+			if base%7 == 0 && ring == 0 {
+				return 1 // a single closed outer way: the "old style" path of buildPolygon
+			}
+			return 1 + (base+ring+rng.Intn(2))%6
+		})
+		for _, n := range in.nodes {
+			if n.p.x == 0 || n.p.y == 0 {
+				w.Count("scene_touches_axis")
+				break
+			}
+		}
 		for _, pc := range in.pieces {
 			w.Count(fmt.Sprintf("piece_edges:%d", min64(int64(pc.edges), 6)))
 		}
